@@ -56,7 +56,13 @@ fn preludes() -> Vec<(&'static str, Vec<Call>)> {
     let f = |n: usize| vec![Call::StartFile { name: "p".into(), opts: FOpts::m(0) }, Call::Write(vec![7u8; n])];
     vec![
         ("append:3-small-entries", vec![]),
-        ("append:1-entry+2000-byte-comment", f(3)),("empty", vec![]), ("1-byte-entry", f(1)), ("30-byte-entry", f(30)), ("31-byte-entry", f(31)), ("4095-byte-entry", f(4095)), ("65500-byte-entry", f(65_500)), ("200000-byte-entry", f(200_000)), ("deflated-entry+dir", vec![Call::StartFile { name: "q".into(), opts: FOpts::m(8) }, Call::Write(vec![9u8; 500]), Call::AddDir { name: "d".into(), opts: FOpts::m(0) }])]
+        ("append:1-entry+2000-byte-comment", f(3)),
+        // a preceding entry whose own extra data ended in the central-only phase (alignment padding is written that way)
+        ("after-aligned-entry-that-padded", vec![Call::StartAligned { name: "pa".into(), opts: FOpts::m(0), align: 64 }, Call::Write(vec![5u8; 10])]),
+        (
+            "after-central-only-extra-entry",
+            vec![Call::StartExtra { name: "pc".into(), opts: FOpts::m(8) }, Call::EndLocalStartCentral, Call::Write(crate::reference::zipbuild::extra_block(0xc0de, b"c")), Call::EndExtra, Call::Write(vec![6u8; 10])],
+        ),("empty", vec![]), ("1-byte-entry", f(1)), ("30-byte-entry", f(30)), ("31-byte-entry", f(31)), ("4095-byte-entry", f(4095)), ("65500-byte-entry", f(65_500)), ("200000-byte-entry", f(200_000)), ("deflated-entry+dir", vec![Call::StartFile { name: "q".into(), opts: FOpts::m(8) }, Call::Write(vec![9u8; 500]), Call::AddDir { name: "d".into(), opts: FOpts::m(0) }])]
 }
 
 fn check_align(align: u16, prelude: &(&'static str, Vec<Call>), name_len: usize, large: bool, method: u16, st: &mut Stats, order: u64) {
@@ -188,7 +194,10 @@ fn check_extra(local: &[u8], central: &[u8], variant: u8, large: bool, st: &mut 
 fn check_extra_in(local: &[u8], central: &[u8], variant: u8, large: bool, st: &mut Stats, order: u64, what: &str, prelude: &str) {
     st.evals += 1;
     let content = b"extra data entry".to_vec();
-    let mut calls = vec![Call::StartFile { name: "before".into(), opts: FOpts::m(0) }, Call::Write(b"b".to_vec())];
+    let mut calls = match preludes().into_iter().find(|p| p.0 == prelude && !p.0.starts_with("append:")) {
+        Some(p) => p.1,
+        None => vec![Call::StartFile { name: "before".into(), opts: FOpts::m(0) }, Call::Write(b"b".to_vec())],
+    };
     calls.push(Call::StartExtra { name: "x".into(), opts: FOpts { large, ..FOpts::m(8) } });
     let (want_local, want_central): (Vec<u8>, Vec<u8>) = match variant {
         0 => {
@@ -351,7 +360,7 @@ pub fn run(args: &Args) -> i32 {
         v
     };
     ctx.rule = format!(
-        "E-PROD. Alignment: {} alignment values ({}) x 10 preceding archive states (two archives re-opened with new_append whose old directory/comment is longer than the new header; empty; entries of 1/30/31/4095/65 500/200 000 bytes, i.e. data offsets below and above 2^16; deflated entry + directory) x 3 name lengths chosen so that the header ends at 0, 1, -1 modulo the alignment \
+        "E-PROD. Alignment: {} alignment values ({}) x 12 preceding archive states (an aligned entry that needed padding; an entry with central-only extra data; two archives re-opened with new_append whose old directory/comment is longer than the new header; empty; entries of 1/30/31/4095/65 500/200 000 bytes, i.e. data offsets below and above 2^16; deflated entry + directory) x 3 name lengths chosen so that the header ends at 0, 1, -1 modulo the alignment \
          x large_file {{no, yes}} x method {{stored, deflated}}: an Ok result must put the data at a multiple of the alignment (independent parser and ZipFile::data_start) and a strictly valid archive (the padding record's ID and the returned padding length are documented but not stated by the property: counted only); Err is a refusal. \
          Extra data: all lists of <= 3 records over 9 header IDs x sizes {{0, 1, 4}} (+ 65531 singly) x tails {{clean, 1-3 stray bytes, overlong size field}} x placement {{shared, local-only, central-only, different local+central}} x large_file; and EVERY header ID 0..=65535 singly. \
          Oracle: reference rules transcribed from APPNOTE (reject truncated / ID 0x0001 / reserved IDs / oversize; accept the rest; IDs listed only in some revisions: either) and verbatim placement. distinct_nontrivial = distinct accepted cases (hash set).",
@@ -465,10 +474,13 @@ pub fn run(args: &Args) -> i32 {
             check_extra(l, central_alt_r, 3, large, st, i, "record list");
             check_extra(central_alt_r, l, 3, large, st, i, "record list");
         }
-        // the same through a writer re-opened on an existing archive (every list of <= 2 records, every 5th longer one)
+        // the same through a writer re-opened on an existing archive, and after entries whose own extra data ended in
+        // the central-only phase (every list of <= 2 records, every 5th longer one)
         if l.len() <= 24 || i % 5 == 0 {
             for v in 0..4u8 {
                 check_extra_in(l, if v == 3 { central_alt_r } else { l }, v, i % 2 == 0, st, (2 << 40) + i, "record list (appending)", "append:3-small-entries");
+                check_extra_in(l, if v == 3 { central_alt_r } else { l }, v, i % 2 == 1, st, (5 << 40) + i, "record list (after an aligned entry)", "after-aligned-entry-that-padded");
+                check_extra_in(l, if v == 3 { central_alt_r } else { l }, v, i % 2 == 0, st, (6 << 40) + i, "record list (after a central-only entry)", "after-central-only-extra-entry");
             }
         }
         if i == 500 {
